@@ -499,6 +499,22 @@ def same_condition_text_case(draw):
     return {"kind": "lines", "lines": lines, "expect_ok": second_ok, "what": "same_condition_text_on_two_nodes"}
 
 
+@st.composite
+def empty_option_case(draw):
+    """the empty string among the options of a string node: an option like any other"""
+    val = draw(st.sampled_from(["junk", "''", "_v2", '""']))
+    ok = val != "junk"
+    cons = draw(st.sampled_from([["  = ''", "  = _v2"], ["  = _v2", '  = ""'], ['  !options ["","_v2"]']]))
+    how = draw(st.sampled_from(["definition", "declaration", "modification"]))
+    if how == "definition":
+        lines = [f"s str = {val}"] + cons
+    elif how == "declaration":
+        lines = ["s str"] + cons + [f"s = {val}"]
+    else:
+        lines = ["s str = _v2"] + cons + [f"s = {val}"]
+    return {"kind": "lines", "lines": lines, "expect_ok": ok, "what": "empty_string_among_the_options"}
+
+
 def strategies(tier):
     return {"numeric": (numeric_case(), 2500, 60000), "string": (string_case(), 800, 20000), "bool": (bool_case(), 200, 4000),
             "array": (array_case(), 600, 12000), "declaration": (decl_case(), 150, 2000),
@@ -508,7 +524,8 @@ def strategies(tier):
             "custom_unit_options": (custom_unit_options_case(), 250, 5000), "format_array": (format_array_case(), 150, 3000),
             "format_multiline": (format_multiline_case(), 150, 3000), "mixed_joiners": (mixed_joiners_case(), 300, 6000),
             "zero": (zero_case(), 300, 6000), "after_modification": (after_modification_case(), 300, 6000),
-            "same_condition_text": (same_condition_text_case(), 150, 3000)}
+            "same_condition_text": (same_condition_text_case(), 150, 3000),
+            "empty_option": (empty_option_case(), 100, 1500)}
 
 
 # --------------------------------------------------------------------------- rendering
